@@ -147,16 +147,18 @@ def solver_iter_krylov(krylov: Optional[LinearSolver] = spl.cg,
             print(np.linalg.norm(x))
 
     def solver(A, b, **solve_time_kwargs):
-        kwargs.update(solve_time_kwargs)
-        if 'M' not in kwargs:
-            kwargs['M'] = build_pc_diag(A)
-        sol, info = krylov(A, b, **{'callback': callback, **kwargs})
+        # do not store the options (and the default preconditioner) of
+        # one system in the closure: the solver may be used again
+        opts = {**kwargs, **solve_time_kwargs}
+        if 'M' not in opts:
+            opts['M'] = build_pc_diag(A)
+        sol, info = krylov(A, b, **{'callback': callback, **opts})
         if info > 0:
             logger.warning("Iterative solver did not converge.")
         elif info == 0 and verbose:
             print(f"{krylov.__name__} converged to "
-                  + f"tol={kwargs.get('tol', 'default')} and "
-                  + f"atol={kwargs.get('atol', 'default')}")
+                  + f"tol={opts.get('tol', 'default')} and "
+                  + f"atol={opts.get('atol', 'default')}")
         return sol
 
     return solver
